@@ -1196,7 +1196,7 @@ fn c14_attr_bytes_kinds_any_len() {
     let msg = any_header();
     let d: [u8; 3] = kani::any();
     let k: u8 = kani::any();
-    kani::assume(k < 4);
+    kani::assume(k < 3);
     match k {
         0 => {
             let a = crate::attributes::turn::Data::new(&d[..]);
@@ -1206,13 +1206,6 @@ fn c14_attr_bytes_kinds_any_len() {
         1 => {
             let a = crate::attributes::mobility::MobilityTicket::new(&d[..]);
             enc_any_len(&a, &msg, 3);
-            std::mem::forget(a);
-        }
-        2 => {
-            let mut a = crate::attributes::stun::UnknownAttributes::default();
-            a.add(1);
-            a.add(2);
-            enc_any_len(&a, &msg, 4);
             std::mem::forget(a);
         }
         _ => {
